@@ -66,12 +66,17 @@ CLAIMED = {
             'inventory (exactly one write call site, no shared state); OS-level effects sampled by snapshot runs of the real binary '
             '(partial for the runtime part)', '7 C18',
             'Coq proof on an abstract file-system model + regenerated effect inventory + snapshot runs of the binary'),
+    'C19': ('compose_all / compose_lines: for all 28 detectors of the property and every file whose items do not mention each '
+            'other\'s state-variable names (plus the parser fact that constructs of different items have different locations), the '
+            'findings of the file are exactly the union of the findings of the files reduced to the pragmas and one item, for location '
+            'sets and line sets; tie: multi-item files assembled from independent programs, whole file vs every other item blanked out '
+            '(implementation), model on isolate(tree, k) = implementation on the k-th blanked file, reordering of items', '7 C19',
+            'Coq proof (per-detector composition over the list of top-level parts, name-table locality under no_cross_mentions) + '
+            'blank-out / reorder correspondence on assembled multi-item files'),
 }
 NOT_YET = {
     'C17': 'check not built yet in this round: the model part (location equivariance of all detectors, string-content irrelevance) and the '
            're-layout correspondence are in progress; the technique applies (DESIGN.md section 7 C17)',
-    'C19': 'check not built yet in this round: composition over top-level items follows from the closed forms of the detectors and is in '
-           'progress; the technique applies (DESIGN.md section 7 C19)',
 }
 
 
